@@ -365,7 +365,7 @@ func writeEvidence(violations int, knownSeen map[string]int) error {
 		s.DistinctCases = len(s.caseSet)
 		s.DistinctOutcomes = len(s.outcomes)
 		secs = append(secs, s)
-		if s.Engine == "BFS" || s.Engine == "SCHED" {
+		if s.Engine == "BFS" {
 			evals += s.Executions
 			distinct += s.States
 		} else {
